@@ -15,7 +15,7 @@ def gen_traces(args):
     rng = np.random.default_rng([sd, wid, 101])
     names = list(H.CLASSES)
     out = []
-    for t in range(n):
+    for t in core.timed(range(n)):
         name = names[(t + wid) % len(names)]
         cls, axis, family, needs_y = H.CLASSES[name]
         kind = H.KINDS[int(rng.integers(len(H.KINDS)))]
@@ -38,7 +38,7 @@ def gen_traces(args):
                 kw["initialize"] = init if rng.random() < 0.5 else np.array(init)
             elif r < 0.5:
                 kw["initialize"] = "random"
-                kw["random_state"] = int(rng.integers(0, 100))
+                kw["random_state"] = int(rng.integers(0, 100)) if rng.random() < 0.7 else 0     # 0 = documented default
                 init = [int(np.random.RandomState(kw["random_state"]).randint(N))]
             else:
                 i0 = int(rng.integers(N))
